@@ -26,6 +26,7 @@ def opOfJson (j : J) : Op :=
     .registerSubscription (j.strD "type") (j.strD "field") (resolverOfJson (j.getD "resolver")) (j.boolD "allow_override") (j.boolD "same")
   | "assign" =>
     .assignResolver (j.natD "level") (j.strD "type") (j.strD "field") (resolverOfJson (j.getD "resolver")) (j.boolD "same")
+  | "assign_arguments" => .assignArguments (j.strD "type") (j.strD "field") ((j.arrD "args").map Driver.argOfJson)
   | "replace_types" =>
     .replaceTypes ((j.arrD "entries").map entryOfJson) ((j.arrD "dir_entries").map dirEntryOfJson)
       (match j.get? "healed" with | some (.obj kvs) => some (Driver.schemaOfJson (.obj kvs)) | _ => none)
